@@ -21,7 +21,7 @@ func init() {
 					ok := false
 					got := ""
 					for _, r := range returnsOf(fn) {
-						if c, isC := constInt(r.Results[0]); isC {
+						if c, isC := constInt(retValue(r, 0)); isC {
 							got = fmt.Sprint(c)
 							ok = c > 0 && c <= minLm(P)
 						}
@@ -203,7 +203,7 @@ func orderAgreementRule(P *Program, R *Report) {
 			got = tail[0].D + " -> " + a.Dst
 			key := "rangekey(" + dpb + ".rpStructures)"
 			ok = tail[0].D == "call:rangeproof.(*ProofStructure).BuildProof("+dpb+".rpStructures[*][#j],"+dpb+".rpCommits["+key+"][#j],arg#1)" &&
-				a.Dst == "makemap["+key+"]"
+				(a.Dst == "makemap["+key+"]" || a.Dst == "new:gabi.ProofD.RangeProofs["+key+"]")
 		}
 		R.decide(rule, kDPBCreateProof+":proofs-in-structure-order", "RangeProofs[index][i] is built from structure i and commit i of that index", ok, got, P.Pos(fn.Pos()))
 	}
@@ -400,7 +400,7 @@ func statementFilingRule(P *Program, R *Report) {
 	if iu := P.Func("gabi.isUndisclosedAttribute"); iu != nil {
 		okc := false
 		for _, ret := range returnsOf(iu) {
-			okc = desc(ret.Results[0]) == "!call:slices.Contains(arg#0,arg#1)"
+			okc = desc(retValue(ret, 0)) == "!call:slices.Contains(arg#0,arg#1)"
 		}
 		R.decide(rule, "gabi.isUndisclosedAttribute:complement", "undisclosed = not contained in the disclosed list", okc, "", P.Pos(iu.Pos()))
 	}
